@@ -402,11 +402,11 @@ func c08OneCell(c *Ctx, wd *c08World, srv *Srv, cell c08Cell, stopper func()) {
 	c.Max("max/handlers_in_flight_at_an_ending", int64(k))
 }
 
-func c08Run(c *Ctx) { c08RunWith(c, 0) }
+func c08Run(c *Ctx) { c08RunWith(c, 0, 0) }
 
 // c08RunWith runs the matrix; writeEntries > 0 shrinks the "writing" handlers' output
 // (used when the matrix serves as a race-detector workload, where 70KB frames cost ~10ms each).
-func c08RunWith(c *Ctx, writeEntries int) {
+func c08RunWith(c *Ctx, writeEntries, sweeps int) {
 	wd := &c08World{byTag: map[string]*c08Track{}, pki: newPKI(), writeEntries: writeEntries}
 	baseFDs := socketFDs()
 	var cells []c08Cell
@@ -421,6 +421,9 @@ func c08RunWith(c *Ctx, writeEntries int) {
 		cells = append(cells, c08Cell{e, "handshake-pending", "plain"})
 	}
 	reps := c.N(1, 50)
+	if sweeps > 0 {
+		reps = sweeps
+	}
 	var servers []*Srv
 	mk := func(tc *tls.Config, rt time.Duration) *Srv {
 		s, err := startSrv(SrvCfg{TLS: tc, ReadTimeout: rt}, wd.register)
